@@ -190,6 +190,9 @@ impl Client {
                     if let Some(search) = current_search.take() {
                         search.wait_cancel();
                     }
+
+                    // Also forget the artifact of a search that was already collected
+                    previous_artifact = None;
                 }
                 Some((&"quit", _)) => break,
                 Some((&".state", _)) => {
